@@ -154,6 +154,22 @@ pub struct Fields {
     pub body: Field,
     pub num: Field,
     pub bulk: Field,
+    /// stored-only filler (a function of the uid), present in `tiny_blocks` configurations: a few of them exceed the
+    /// 8 KiB write buffer, so that a segment's doc store reaches the directory in several appends
+    pub blob: Field,
+}
+/// 3000 hardly compressible characters derived from the uid
+pub fn blob_of(uid: u64) -> String {
+    let mut x = uid.wrapping_mul(0x9E3779B97F4A7C15) | 1;
+    let mut s = String::with_capacity(3000);
+    while s.len() < 3000 {
+        x ^= x << 13;
+        x ^= x >> 7;
+        x ^= x << 17;
+        s.push_str(&format!("{x:016x}"));
+    }
+    s.truncate(3000);
+    s
 }
 pub fn hist_schema() -> (Schema, Fields) {
     let mut sb = Schema::builder();
@@ -162,7 +178,8 @@ pub fn hist_schema() -> (Schema, Fields) {
     let body = sb.add_text_field("body", TEXT | STORED);
     let num = sb.add_i64_field("num", FAST | INDEXED | STORED);
     let bulk = sb.add_text_field("bulk", TextOptions::default().set_indexing_options(TextFieldIndexing::default().set_tokenizer("whitespace").set_index_option(IndexRecordOption::Basic)));
-    (sb.build(), Fields { uid, grp, body, num, bulk })
+    let blob = sb.add_text_field("blob", STORED);
+    (sb.build(), Fields { uid, grp, body, num, bulk, blob })
 }
 
 pub enum DirHandle {
@@ -326,6 +343,9 @@ impl Env {
         d.add_text(self.f.grp, format!("g{}", a.grp));
         d.add_text(self.f.body, rec.body());
         d.add_i64(self.f.num, rec.num);
+        if self.cfg.tiny_blocks {
+            d.add_text(self.f.blob, blob_of(uid));
+        }
         (d, rec)
     }
     fn note_opstamp(&mut self, o: u64, what: &str) -> CaseResult {
@@ -819,6 +839,9 @@ pub fn verify_searcher(s: &Searcher, f: &Fields, model: &Model, when: &str) -> C
             let (Some(uid), Some(grp), Some(body), Some(num)) = (uid, grp, body, num) else {
                 fail!("stored_field_missing", "{when}: segment {ord} doc {doc}: {d:?}")
             };
+            if let Some(b) = d.get_first(f.blob).and_then(|v| v.as_str()) {
+                ensure!(b == blob_of(uid), "stored_blob_differs", "{when}: segment {ord} doc {doc} uid {uid}: the stored filler is not the one of this uid ({} bytes, starts {:?})", b.len(), &b[..b.len().min(16)]);
+            }
             let ff_uid: Vec<u64> = uid_col.values_for_doc(doc).collect();
             let ff_num: Vec<i64> = num_col.values_for_doc(doc).collect();
             ensure!(ff_uid == vec![uid], "fast_field_differs_from_stored", "{when}: uid fast {ff_uid:?} stored {uid}");
